@@ -122,6 +122,18 @@ func runC15(c *core.Ctx) {
 					for i := range lens {
 						lens[i] = 2 + i%2
 					}
+					// every third case: the surplus rows (or, with too few rows, the
+					// last one) are nil, and so is the first row in some
+					if (ai+bi+ch+m)%3 == 0 {
+						for i := range lens {
+							if i >= ch || i == m-1 {
+								lens[i] = -1
+							}
+						}
+						c.Obs("striped_mismatches_with_nil_rows", 1)
+					} else if (ai+bi+ch+m)%3 == 1 && m > 0 {
+						lens[0] = -1
+					}
 					d := map[string]any{"pair": []string{p.A.Name, p.B.Name}, "channels": ch, "slices": m}
 					// ReadStriped: Buffer[A] -> [][]B
 					{
